@@ -38,6 +38,10 @@ def algo_case(rng, algo, tier, part=None, dim=None, n=None, T=None, fams=None, b
         "np_seed": int(rng.integers(1 << 30)),
         "reward": {"family": str(rng.choice(fams)), "seed": int(rng.integers(1 << 30))},
     }
+    if dim >= 2 and rng.random() < 0.12:
+        # domain = [[lo, hi]] * d (one shared interval object): all coordinates get the first interval
+        case["box"] = [list(box[0]) for _ in box]
+        case["alias_box"] = True
     if inject_p and (part.startswith("R") or algo == "VROOM") and rng.random() < 0.5:
         case["inject"] = {"uniform_p": inject_p, "seed": int(rng.integers(1 << 30))}
     case["_cost"] = cost(case)
